@@ -156,7 +156,12 @@ fn check_shape(out: &QueryOutput, ex: Option<&Expect>, known_table_cols: Option<
         None => return Some(("shape:no-rows".into(), "rows missing although the row format was requested".into())),
         Some(rows) => {
             if ncols > 0 && rows.len() != len {
-                return Some(("shape:row-count".into(), format!("{} rows but columns have {} cells", rows.len(), len)));
+                // release profile of finding F5: `len - offset` wrapped around
+                let wrapped = len > (1usize << 60);
+                return Some((
+                    if wrapped { "shape:row-count:wrapped-length".into() } else { "shape:row-count".to_string() },
+                    format!("{} rows but columns have {} cells", rows.len(), len),
+                ));
             }
             for (i, row) in rows.iter().enumerate() {
                 if row.len() != ncols {
@@ -253,8 +258,8 @@ enum Called {
 fn call(fx: &db::Fixture, text: &str) -> Called {
     let dbh = fx.db.clone();
     let t = text.to_string();
-    let r = db::with_deadline(DEADLINE + Duration::from_secs(2), move || {
-        db::runtime().block_on(async move { tokio::time::timeout(DEADLINE, dbh.run_query(&t, false, true, vec![])).await })
+    let r = db::with_deadline(DEADLINE, move || {
+        db::runtime().block_on(async move { tokio::time::timeout(DEADLINE + db::HARD_EXTRA + Duration::from_secs(5), dbh.run_query(&t, false, true, vec![])).await })
     });
     match r {
         Ok(Ok(Ok(o))) => Called::Ok(o),
@@ -275,7 +280,7 @@ impl Suite for Api {
     }
     fn generate(&self, seed: u64, tier: &str) -> Vec<Case> {
         let mut r = Rng::new(seed ^ 0xC12_0002);
-        let n = if tier == "thorough" { 40_000 } else { 2_500 };
+        let n = if tier == "thorough" { 15_000 } else { 2_500 };
         let mut cases: Vec<Case> = PINNED.iter().map(|(c, t)| case_of(&crate::features::class_of(c, t), t)).collect();
         for t in ["SELECT name FROM _meta_tables", "SELECT * FROM _meta_tables", "SELECT COUNT(1) FROM _meta_tables"] {
             cases.push(Case { class: "fresh-db".into(), input: Sx::tagged("q", vec![Sx::bytes(t.as_bytes()), Sx::a("fresh")]) });
@@ -372,7 +377,13 @@ impl Suite for Api {
                 let class = canon::panic_class(m);
                 impl_out = Sx::tagged("panic", vec![Sx::a(class)]);
                 tainted = true;
-                let site = panics.first().map(|p| p.split(':').next().unwrap_or("").to_string()).unwrap_or_default();
+                // the recorder entry of THIS panic (stragglers of a discarded database may have recorded others)
+                let site = panics
+                    .iter()
+                    .find(|p| p.ends_with(m.as_str()))
+                    .or(panics.first())
+                    .map(|p| p.split(':').next().unwrap_or("").to_string())
+                    .unwrap_or_default();
                 oracle = Some((format!("caller-panic:run_query:{}:{}", site, class), format!("run_query panicked in the caller: {}", m)));
             }
             Called::Hang => {
